@@ -87,3 +87,5 @@ func guard(f func() string) (res string) {
 	}()
 	return f()
 }
+
+func itoa(n int) string { return fmt.Sprintf("%d", n) }
